@@ -5,6 +5,7 @@ import Lean.Data.Json
 import Dtaiverif.Model.Settings
 import Dtaiverif.Model.Bounds
 import Dtaiverif.Model.Compact
+import Dtaiverif.Model.Path
 
 open Lean
 
@@ -121,10 +122,48 @@ def opExpand (j : Json) : Except String Json := do
     (sl.getD 0 0) (sl.getD 1 0) (sl.getD 2 0) (sl.getD 3 0)
   return Json.mkObj [("mat", rowsJ m)]
 
+def cellsJ (l : List (Nat × Nat)) : Json :=
+  Json.arr (l.map fun p => Json.arr #[Json.num p.1, Json.num p.2]).toArray
+
+def getPaths (j : Json) (k : String) : List (List (Nat × Nat)) :=
+  match j.getObjVal? k with
+  | .ok (Json.arr ps) => ps.toList.map fun p =>
+      match p with
+      | Json.arr cs => cs.toList.map fun c =>
+          match c with
+          | Json.arr #[a, b] => ((a.getNat?.toOption.getD 0), (b.getNat?.toOption.getD 0))
+          | _ => (0, 0)
+      | _ => []
+  | _ => []
+
+/-- op "path": best path of the model (trace-back of `dtw.best_path` on the exact matrix, from the
+end cell the psi epilogue selects or from a given start cell) and the decision `IsBack` for paths
+produced by the implementation -/
+def opPath (j : Json) : Except String Json := do
+  let s ← rawSettings j
+  let s1 ← getIntArr j "s1"
+  let s2 ← getIntArr j "s2"
+  let r := s1.size / s.ndim
+  let c := s2.size / s.ndim
+  let engineC := getStrD j "engine" "py" == "c"
+  let g := if engineC then s.toGridC r c s1 s2 else s.toGridPy r c s1 s2
+  let w := wpsModel g (HasTop.top : Cost)
+  let start : Nat × Nat := match getNatArr j "start" with
+    | .ok a => (a.getD 0 0, a.getD 1 0)
+    | .error _ => w.endCell
+  let rows := (matU g r).map (·.toArray) |>.toArray
+  let M : Nat → Nat → Cost := fun I J => (rows.getD I #[]).getD J Cost.inf
+  let path := (backtrack M g.pen (start.1 + start.2 + 2) start.1 start.2).reverse
+  let cands := getPaths j "paths"
+  let acc := cands.map fun p => Json.bool (isBackB g M p.reverse)
+  return Json.mkObj [("path", cellsJ path), ("end", cellsJ [w.endCell]), ("accept", Json.arr acc.toArray),
+    ("value", costJ (M start.1 start.2))]
+
 def dispatch (j : Json) : Except String Json := do
   let op ← (j.getObjVal? "op") >>= (·.getStr?)
   let res ← match op with
     | "dtw" => opDtw j
+    | "path" => opPath j
     | "parts" => opParts j
     | "expand" => opExpand j
     | "ping" => pure (Json.mkObj [("pong", Json.bool true)])
